@@ -9,7 +9,7 @@ from .common import (construct, fsite, csite, direct_calls, init_cleanup_pairs, 
 TITLE = ("Typestate/dominance check at every free() in the library: (R1) the freed block is the object a wipe call "
          "zeroes, the wipe dominates the free and nothing writes the object in between (a release helper that wipes one parameter and frees through another is checked at its call sites); (R2) wipe length = allocation "
          "request of the paired init = DataLayout size of the context type (three numbers from three places); (R3) the "
-         "wipe primitive is a volatile zero-store loop whose trip count is its length argument; (R4) a pointer that "
+         "wipe primitive is a volatile zero-store loop whose trip count is its length argument, or several such loops (word loop + byte tail) whose stored intervals chain to exactly [ptr, ptr+len) on every path under W*(n/W)+(n&(W-1))=n; (R4) a pointer that "
          "lives inside the wiped object (base_ptr) is loaded before the wipe; (R5) in the -O3 IR of the shipped build the "
          "volatile stores survive, cover the same length and still precede free().")
 
